@@ -311,6 +311,27 @@ pub fn configs(n_links: usize, tag: &str) -> Vec<Config> {
         world::write(&dir, &format!("s.{}.link", mixed.into_iter().collect::<String>()), &mk(5));
         out.push(Config { name: "xiv:look-alike-file-names-in-another-case".into(), layout: world::sign_layout(lay, &[owner]), owners: world::owner_map(&[owner]), dir, ambiguous: true });
     }
+    // (xv) one functionary key that the layout lists under two ids (one RSA modulus declared with
+    // both PSS digests), a validly signed link under each id, with different products: which of
+    // the two is looked at first must not matter - alone (threshold 1) and next to a second
+    // functionary who agrees with only one of them (threshold 2)
+    if n_links == 2 {
+        let (r1, r2) = (keys::get("rsa256a"), keys::get("rsa512a"));
+        for (thr, with_third) in [(1u32, false), (2, true)] {
+            let dir = util::fresh_dir(&format!("c13-{tag}"));
+            let mut fs: Vec<&Key> = vec![r1, r2];
+            if with_third {
+                fs.push(f[0]);
+            }
+            let lay = world::layout(vec![world::step("s", thr, &fs)], vec![], &fs, world::far_future());
+            write_link(&dir, "s", r1, &world::sign_link(world::link("s", world::arts(&[]), world::arts(&[("a", 1)])), &[r1]));
+            write_link(&dir, "s", r2, &world::sign_link(world::link("s", world::arts(&[]), world::arts(&[("a", 2)])), &[r2]));
+            if with_third {
+                write_link(&dir, "s", f[0], &world::sign_link(world::link("s", world::arts(&[]), world::arts(&[("a", 1)])), &[f[0]]));
+            }
+            out.push(Config { name: format!("xv:one-key-under-two-ids-links-differ:thr{thr}"), layout: world::sign_layout(lay, &[owner]), owners: world::owner_map(&[owner]), dir, ambiguous: true });
+        }
+    }
     // (vi) more files than needed, some invalid: one valid link, one with a bad
     // signature, one signed by a key outside the key table, one doubly signed
     {
